@@ -76,6 +76,9 @@ func (b *B) Eq(rule, construct, where string, got *RF, env *SpecEnv, spec string
 			b.R.OK(rule, construct, where, "≡ "+spec)
 			ok = true
 		} else if g2, w2 := b.X.ExpandCalls(got), b.X.ExpandCalls(want); !(g2.Equal(got) && w2.Equal(want)) && (g2.Equal(w2) || b.X.EquivByCases(g2, w2, 0)) {
+			if os.Getenv("GMSA_DEBUG_EXPAND") != "" {
+				fmt.Fprintf(os.Stderr, "EXPAND %s\n  g2=%s\n  w2=%s\n", construct, clip(g2.String(), 1500), clip(w2.String(), 1500))
+			}
 			// helpers kept as applications replaced by their gated result
 			b.R.OK(rule, construct, where, "≡ "+spec)
 			ok = true
@@ -1726,4 +1729,14 @@ func (b *B) EqAt(rule, construct, where string, fc *FC, at ssa.Instruction, got,
 		}
 	}
 	return b.EqRF(rule, construct, where, g, w, what)
+}
+
+// RefutedAt: cond is contradicted by the branch conditions known on entry to blk.
+func (fc *FC) RefutedAt(blk *ssa.BasicBlock, cond *RF) bool {
+	var as []Assumption
+	as = append(as, fc.Assume...)
+	for _, f := range fc.Ctx.Facts(blk) {
+		as = append(as, Assumption{Cond: fc.Val(f.Cond), True: f.Val})
+	}
+	return fc.X.EvalCond(cond, as) == False
 }
